@@ -21,7 +21,7 @@ RULE = ('files of 1-5 records for BED/BED6/narrowPeak/VCF(VCFBuffer and VCFBuffe
         'concatenations (2-3 operands), replacements of 1-3 fields and intermediate writes; exhaustive index-menu programs of '
         'length <= 2 on 3-record BED6/FASTQ files.  Non-trivial = the program is not the identity and the records have unequal lengths')
 EXHAUSTIVE = {'quick': False, 'thorough': False}
-TIE = ('correspondence: Model.C04.model_out (from_raw_buffer offset tables, getitem, _make_contigous, concatenate, '
+TIE = ('translator+correspondence: Gen/C04.v (translate/gen_c04.py) bridged to the model by Bridge/C04.v (C04_source_tie); Model.C04.model_out (from_raw_buffer offset tables, getitem, _make_contigous, concatenate, '
        'get_field / rest-of-line / SAM extra, lazy get_buffer, BAM block chain) evaluated in Coq on the file bytes and the program')
 ASSUMPTIONS = ['A-IO: the whole file reaches from_raw_buffer in one chunk (bnp.open(..).read()); chunked reading is C01',
                'replaced values are handed to Coq as their canonical text (str(int), the given strings); number formatting is C03/C18',
